@@ -146,6 +146,10 @@ class _Gen:
                     self.lines.insert(mark, "    " * ind + "E(%d)" % self.sid())
             emitted += 1
             if done:
+                if self.opts.get("dead_code") and r.chance(0.4):
+                    # a statement after break / continue / return in the same
+                    # statement list: legal, never executed
+                    self.stmt(ind, depth)
                 break
         if not emitted:
             self.emit(ind, "E(%d)" % self.sid() if (self.opts["clean"] and not self.opts.get("empty_arms_ok")) else "pass")
@@ -251,6 +255,9 @@ class _Gen:
 
 def draw_opts(rng):
     o = _draw_opts(rng)
+    # unreachable statements behind a jump (added in the second session, after a
+    # sub-agent's fuzzer met them: the front end kept them in the block)
+    o["dead_code"] = rng.fork("dead-code").chance(0.25)
     if rng.chance(0.6):
         # "clean" shape: none of the shapes the known findings are tied to
         # (nested and/or, escaping for-target, effectively empty arms), so that
